@@ -75,8 +75,20 @@ def write_locals_lock():
             for q, fi in m.funcs.items():
                 lock[f"{m.name}.{q}"] = own_locals(fi.node)
                 lock[f"loops:{m.name}.{q}"] = loop_headers(fi)
+                lock[f"hash:{m.name}.{q}"] = fi.source_hash()
     json.dump(lock, open(LOCALS_LOCK_PATH, "w"), indent=0, sort_keys=True)
     return len(lock)
+
+
+def source_changed(fn):
+    """True when the function's source text differs from what it was when the contracts were locked (None: not locked)"""
+    locked = LOCALS_LOCK.get("hash:" + fn)
+    if locked is None:
+        return None
+    try:
+        return get_func(fn).source_hash() != locked
+    except KeyError:
+        return True
 
 
 def changed_loops(func_loop_pairs):
